@@ -202,6 +202,43 @@ func c20Persistence(ctx *Ctx, i int) {
 	want := run.canon()
 	_, _ = run.exec(pOp{Caller: "emb", Argv: []string{"@SNAP"}})
 	run.close()
+	// further generations on the same directory: restart, write in other databases (database 0 first), stop, restart
+	gdir := mkScratch("c20gen")
+	defer os.RemoveAll(gdir)
+	if err := copyDir(dir, gdir); err == nil {
+		for gen := 0; gen < 3; gen++ {
+			in, err := NewInst(InstOpts{DataDir: gdir, AOFStrategy: "always", RestoreAOF: true, Clock: clk})
+			if err != nil {
+				break
+			}
+			var cmds []string
+			for k := 0; k < 4; k++ {
+				db := 0
+				if gen > 0 || k > 1 {
+					db = c20DBs[r.Intn(len(c20DBs))]
+				}
+				_ = in.S.SelectDB(db)
+				argv := genWriteOp(r, clk.NowNs(), false, false)
+				if matchPersistFinding(argv) != "" {
+					continue
+				}
+				in.Do(argv...)
+				cmds = append(cmds, fmt.Sprintf("[db %d] %s", db, Step{Argv: argv}.String()))
+			}
+			wantG := CanonDump(in.S.VerifDump(), clk.NowNs())
+			in.Close()
+			d, rdir, err := restoreDump(gdir, "always", clk, true, false, nil)
+			os.RemoveAll(rdir)
+			ctx.Eval(1)
+			ctx.Class(fmt.Sprintf("persistence|aof|generation=%d", gen+2))
+			if err != nil || !canonEq(wantG, d) {
+				ctx.Violate(Violation{Kind: "placement", Lane: "persistence-aof-generations",
+					What: fmt.Sprintf("generation %d: after a restart, writes %v, a clean stop and another restart, keys are not in the databases they were written to: %v %s", gen+2, cmds, err, model.DiffCanon(wantG, d)),
+					Case: map[string]interface{}{"workload": w, "generation": gen + 2, "writes": cmds}, Key: "c20|persistence|generations"})
+				break
+			}
+		}
+	}
 	for _, mode := range []string{"aof", "snapshot"} {
 		d, rdir, err := restoreDump(dir, "always", clk, mode == "aof", mode == "snapshot", nil)
 		os.RemoveAll(rdir)
